@@ -1,3 +1,4 @@
+import PomerolModel.Model.Averages
 import Driver.NumericRun
 
 namespace Driver.Numeric
@@ -149,6 +150,30 @@ def truncCheck (a : Acc) (prop key what : String) (v : List C) (bound : Float) :
     if d > bound + 1.0e-11 then
       fail a prop s!"{what}: truncation at eps={a.s.truncEps} changed the value by {d}, proven bound {bound}"
     else pure a
+
+/-- the density-matrix parts of the modelled `DensityMatrix` (Model/Averages.lean) from the implementation's own
+eigenvectors, eigenvalues and weights -/
+def modelParts (s : Sys) : List (Pomerol.Model.Averages.Part Float C) :=
+  (List.range s.blocks.size).map fun b =>
+    let fock := (s.blocks[b]!).toList
+    let n := fock.length
+    { nmodes := s.M, fock := fock, dim := n,
+      U := fun fi st => mget s.V (fock.getD fi 0) (kIndex s b st),
+      energies := (List.range n).map fun i => s.E[kIndex s b i]!,
+      weights := (List.range n).map fun i => s.wImpl.getD (kIndex s b i) 0.0,
+      retained := true }
+
+/-- model of the averaging loops vs. the implementation (hand-written model: a difference is a broken tie) -/
+def modelDiff (a : Acc) (what : String) (impl : Float) (model : Except Pomerol.Model.Averages.Err Float) : IO Acc := do
+  let a := a.bump "averages_model_comparisons"
+  match model with
+  | .ok m =>
+    if Float.abs (impl - m) > 1.0e-12 * (1.0 + Float.abs m) then
+      IO.println s!"MODELDIFF[C09] {what}: implementation {impl}, model of the averaging loops {m}"
+    pure a
+  | .error _ =>
+    IO.println s!"MODELDIFF[C09] {what}: the model of the averaging loops reads out of range"
+    pure a
 
 def runNumeric (lines : List String) : IO Unit := do
   let mut a : Acc := {}
@@ -308,17 +333,23 @@ def runNumeric (lines : List String) : IO Unit := do
       let tot := (List.range s.dim).foldl (fun acc k => acc + w[k]! *
         (List.range s.dim).foldl (fun acc f => acc + (mget s.V f k).normSq * Float.ofNat (popCount f s.M)) 0.0) 0.0
       if Float.abs (fOf v - tot) > 1.0e-10 * (1.0 + tot) then a ← fail a "C09" s!"total occupancy {fOf v} vs Tr(rho N) = {tot}"
+      if s.wImpl.size == s.dim then
+        a ← modelDiff a "total occupancy" (fOf v) (Pomerol.Model.Averages.DM.avgOccupancyTotal (modelParts s))
     | ["o", "occ", i, v] =>
       let s := a.s; let w := specWeights s
       let o := (List.range s.dim).foldl (fun acc k => acc + w[k]! *
         (List.range s.dim).foldl (fun acc f => if f.testBit (nat! i) then acc + (mget s.V f k).normSq else acc) 0.0) 0.0
       a := remember a s!"occ {i}" [ofR (fOf v)]
       if Float.abs (fOf v - o) > 1.0e-10 then a ← fail a "C09" s!"occupancy of index {i}: {fOf v} vs Tr(rho n_i) = {o}"
+      if s.wImpl.size == s.dim then
+        a ← modelDiff a s!"occupancy of index {i}" (fOf v) (Pomerol.Model.Averages.DM.avgOccupancy (modelParts s) (nat! i))
     | ["o", "docc", i, j, v] =>
       let s := a.s; let w := specWeights s
       let o := (List.range s.dim).foldl (fun acc k => acc + w[k]! *
         (List.range s.dim).foldl (fun acc f => if f.testBit (nat! i) && f.testBit (nat! j) then acc + (mget s.V f k).normSq else acc) 0.0) 0.0
       if Float.abs (fOf v - o) > 1.0e-10 then a ← fail a "C09" s!"double occupancy ({i},{j}): {fOf v} vs Tr(rho n_i n_j) = {o}"
+      if s.wImpl.size == s.dim then
+        a ← modelDiff a s!"double occupancy ({i},{j})" (fOf v) (Pomerol.Model.Averages.DM.avgDoubleOccupancy (modelParts s) (nat! i) (nat! j))
     | ["o", "wstate", st, v] =>
       -- DensityMatrix::getWeight(state) = weight stored for (block(state), inner(state))
       match blockOfState a.s (nat! st) with
